@@ -74,11 +74,11 @@ pub fn select_bld(child: &mut Child, cancel: &Receiver<BuildCancellationMessage>
     requires
         old(tr).exit_ok is None, !old(tr).cancel_seen,
     ensures
-        /*[C05.fail-is-err,C07.fail-is-err]*/ r matches Ok(BuildTerminationReport::Completed) ==> final(tr).exit_ok == Some(true),
-        /*[C05.fail-is-err,C07.fail-is-err]*/ final(tr).exit_ok == Some(false) ==> r is Err,
-        /*[C05.fail-is-err,C10.cancel-on-term]*/ r matches Ok(BuildTerminationReport::Cancelled) ==> final(tr).cancel_seen,
-        /*[C05.fail-is-err]*/ r matches Ok(BuildTerminationReport::Completed) ==> !final(tr).cancel_seen,
-        /*[C07.fail-is-err]*/ final(tr).spawned == old(tr).spawned ==> r is Err,
+        /*[C05.fail-is-err,C07.fail-is-err,C01.ok-genuine]*/ r matches Ok(BuildTerminationReport::Completed) ==> final(tr).exit_ok == Some(true),
+        /*[C05.fail-is-err,C07.fail-is-err,C01.ok-genuine]*/ final(tr).exit_ok == Some(false) ==> r is Err,
+        /*[C05.fail-is-err,C10.cancel-on-term,C01.ok-genuine]*/ r matches Ok(BuildTerminationReport::Cancelled) ==> final(tr).cancel_seen,
+        /*[C05.fail-is-err,C01.ok-genuine]*/ r matches Ok(BuildTerminationReport::Completed) ==> !final(tr).cancel_seen,
+        /*[C07.fail-is-err,C01.ok-genuine]*/ final(tr).spawned == old(tr).spawned ==> r is Err,
         /*[C08.single-inflight]*/ final(tr).spawn_calls == old(tr).spawn_calls + 1,
         /*[C10.reap-build]*/ forall|id: int| final(tr).spawned.contains(id) && !old(tr).spawned.contains(id) ==> final(tr).waited.contains(id),
         /*[C10.reap-build]*/ r matches Ok(BuildTerminationReport::Cancelled) ==> forall|id: int| final(tr).spawned.contains(id) && !old(tr).spawned.contains(id) ==> final(tr).killed.contains(id),
